@@ -5,6 +5,9 @@
 //!   input   : bytes:<seed> | toks:<seed> | rep:<seed> | gram:<seed> | gmut:<seed> | feat:<seed> | prog:<seed> | pmut:<seed>
 //!             | repo:<root>|<entry> | rmut:<root>|<entry>|<seed>          (repository inputs, includes from disk)
 //!             | hex:<bytes> | hexd:<root>|<entry>|<bytes>                  (literal entry file; minimised inputs)
+//!             | pp:<seed> | ppmut:<seed>      (preprocessor grammar: entry file + in-memory headers + its own API defines)
+//!             | syn:<seed> | synmut:<seed>    (syntax-category generator, see c08_syn.rs)
+//!             | hexm:<entry>|<hex>|<name>|<hex>|...                        (literal multi-file input)
 //! observe : ok:<pipelines>:<output bytes> | err:<first line of the diagnostic> | panic:<site> | died:<signal> | timeout
 //! oracle  : (the property's own) the worker process survives, `compile` returns, an `Err` renders to a non-empty
 //!           message, and the time stays inside `BUDGET_BASE_MS + n^2 * BUDGET_NS_PER_BYTE2` (n = bytes loaded).
@@ -101,38 +104,68 @@ pub struct Material {
     pub entry: String,
     pub bytes: Vec<u8>,
     pub root: Option<String>,
+    /// further in-memory files the include handler hands out (preprocessor-grammar inputs)
+    pub files: Vec<(String, Vec<u8>)>,
+    /// command-line defines that belong to the input itself (appended to the request's)
+    pub defs: Vec<(String, String)>,
+}
+
+fn pp_material(p: PpProgram) -> Option<Material> {
+    let mut it = p.files.into_iter();
+    let (entry, main) = it.next()?;
+    Some(Material { entry, bytes: main.into_bytes(), root: None, files: it.map(|(n, t)| (n, t.into_bytes())).collect(), defs: p.defines })
 }
 
 pub fn materialise(input: &str) -> Option<Material> {
     let (kind, rest) = input.split_once(':')?;
-    let mem = |bytes: Vec<u8>| Some(Material { entry: "main.rssl".into(), bytes, root: None });
+    let mem = |bytes: Vec<u8>| Some(Material { entry: "main.rssl".into(), bytes, root: None, files: Vec::new(), defs: Vec::new() });
     match kind {
         "hex" => mem(unhex(rest)?),
         "hexd" => {
             let mut p = rest.splitn(3, '|');
             let (root, entry, h) = (p.next()?, p.next()?, p.next()?);
-            Some(Material { entry: entry.into(), bytes: unhex(h)?, root: Some(root.into()) })
+            Some(Material { entry: entry.into(), bytes: unhex(h)?, root: Some(root.into()), files: Vec::new(), defs: Vec::new() })
         }
+        "hexm" => {
+            let parts: Vec<&str> = rest.split('|').collect();
+            if parts.len() < 2 || parts.len() % 2 != 0 {
+                return None;
+            }
+            let mut files = Vec::new();
+            for c in parts[2..].chunks(2) {
+                files.push((c[0].to_string(), unhex(c[1])?));
+            }
+            Some(Material { entry: parts[0].into(), bytes: unhex(parts[1])?, root: None, files, defs: Vec::new() })
+        }
+        "pp" => pp_material(gen_pp(&mut Rng::new(rest.parse::<u64>().ok()?))),
+        "ppmut" => pp_material(gen_pp_mutated(&mut Rng::new(rest.parse::<u64>().ok()?))),
         "repo" => {
             let (root, entry) = rest.split_once('|')?;
             let bytes = std::fs::read(std::path::Path::new(root).join(entry)).ok()?;
-            Some(Material { entry: entry.into(), bytes, root: Some(root.into()) })
+            Some(Material { entry: entry.into(), bytes, root: Some(root.into()), files: Vec::new(), defs: Vec::new() })
         }
         "rmut" => {
             let mut p = rest.splitn(3, '|');
             let (root, entry, seed) = (p.next()?, p.next()?, p.next()?.parse::<u64>().ok()?);
             let bytes = std::fs::read(std::path::Path::new(root).join(entry)).ok()?;
             let bytes = mutate_bytes(&bytes, &mut Rng::new(seed));
-            Some(Material { entry: entry.into(), bytes, root: Some(root.into()) })
+            Some(Material { entry: entry.into(), bytes, root: Some(root.into()), files: Vec::new(), defs: Vec::new() })
         }
         _ => mem(generate(kind, rest.parse::<u64>().ok()?)?),
     }
 }
 
 /// the literal (`hex:` / `hexd:`) form of an input spec with other entry bytes
-pub fn literal_spec(m: &Material, bytes: &[u8]) -> String {
+pub fn literal_spec_files(m: &Material, bytes: &[u8], files: &[(String, Vec<u8>)]) -> String {
     match &m.root {
-        None => format!("hex:{}", hex(bytes)),
+        None if files.is_empty() && m.entry == "main.rssl" => format!("hex:{}", hex(bytes)),
+        None => {
+            let mut s = format!("hexm:{}|{}", m.entry, hex(bytes));
+            for (n, b) in files {
+                s.push_str(&format!("|{}|{}", n, hex(b)));
+            }
+            s
+        }
         Some(root) => format!("hexd:{}|{}|{}", root, m.entry, hex(bytes)),
     }
 }
@@ -151,6 +184,15 @@ impl rssl::text::IncludeHandler for Overlay<'_> {
                 Ok(contents) => {
                     self.loaded += contents.len();
                     Ok(rssl::text::FileData { real_name: file_name.to_string(), contents })
+                }
+                Err(_) => Err(rssl::text::IncludeError::FileNotText),
+            };
+        }
+        if let Some((name, bytes)) = self.m.files.iter().find(|(n, _)| n == file_name) {
+            return match String::from_utf8(bytes.clone()) {
+                Ok(contents) => {
+                    self.loaded += contents.len();
+                    Ok(rssl::text::FileData { real_name: name.clone(), contents })
                 }
                 Err(_) => Err(rssl::text::IncludeError::FileNotText),
             };
@@ -181,7 +223,7 @@ fn run_one(req: &Req) -> Res {
     let Some(m) = materialise(&req.input) else {
         return Res { obs: "bad-input".into(), oracle: "SKIP:input spec cannot be materialised".into(), micros: 0, nbytes: 0 };
     };
-    let defs: Vec<(&str, &str)> = req.defs.iter().map(|(a, b)| (a.as_str(), b.as_str())).collect();
+    let defs: Vec<(&str, &str)> = req.defs.iter().chain(m.defs.iter()).map(|(a, b)| (a.as_str(), b.as_str())).collect();
     let mut h = Overlay { m: &m, loaded: 0 };
     let t0 = Instant::now();
     let r = guard(|| {
@@ -234,7 +276,7 @@ fn run_staged(req: &Req) {
         defs[1].1 = "0";
         defs[2].1 = "1";
     }
-    defs.extend(req.defs.iter().map(|(a, b)| (a.as_str(), b.as_str())));
+    defs.extend(req.defs.iter().chain(m.defs.iter()).map(|(a, b)| (a.as_str(), b.as_str())));
     let _ = guard(|| {
         let mut h = Overlay { m: &m, loaded: 0 };
         let mut sm = rssl::text::SourceManager::new();
@@ -729,14 +771,43 @@ fn squeeze_pairs(s: &str) -> String {
     s.to_string()
 }
 
-/// Greedy delta debugging over lines, then over byte chunks; every candidate runs in a worker process
+/// A candidate while minimising: entry bytes, the other in-memory files, the command-line defines
+#[derive(Clone)]
+struct Cand {
+    entry: Vec<u8>,
+    files: Vec<(String, Vec<u8>)>,
+    defs: Vec<(String, String)>,
+}
+
+impl Cand {
+    fn comp(&self, k: usize) -> &Vec<u8> {
+        if k == 0 { &self.entry } else { &self.files[k - 1].1 }
+    }
+    fn with_comp(&self, k: usize, bytes: Vec<u8>) -> Cand {
+        let mut c = self.clone();
+        if k == 0 {
+            c.entry = bytes;
+        } else {
+            c.files[k - 1].1 = bytes;
+        }
+        c
+    }
+    fn size(&self) -> usize {
+        self.entry.len() + self.files.iter().map(|f| f.1.len() + 8).sum::<usize>() + self.defs.iter().map(|d| d.0.len() + d.1.len() + 8).sum::<usize>()
+    }
+}
+
+/// Greedy delta debugging: whole defines and files first, then per file over lines, then over byte chunks
+/// (define values too); every candidate runs in a worker process
 fn shrink(req: &Req, key: &str, budget_runs: usize, jobs: usize) -> (Req, Res, usize) {
     let m = materialise(&req.input).unwrap();
-    let mut best = m.bytes.clone();
+    let mut best = Cand { entry: m.bytes.clone(), files: m.files.clone(), defs: req.defs.iter().chain(m.defs.iter()).cloned().collect() };
+    let budget_runs = if best.files.is_empty() && best.defs.is_empty() { budget_runs } else { budget_runs * 2 };
     let mut runs = 0usize;
-    let mk = |bytes: &[u8]| {
+    let mk = |c: &Cand| {
         let mut r = req.clone();
-        r.input = literal_spec(&m, bytes);
+        r.input = literal_spec_files(&m, &c.entry, &c.files);
+        r.defs = c.defs.clone();
         r
     };
     // the literal form itself must fail the same way
@@ -752,74 +823,121 @@ fn shrink(req: &Req, key: &str, budget_runs: usize, jobs: usize) -> (Req, Res, u
     }
     let first_copy = Res { obs: first.obs.clone(), oracle: first.oracle.clone(), micros: first.micros, nbytes: first.nbytes };
     let mut best_res = first;
+    // one round of candidates: the first that still fails the same way becomes the new best
+    let mut try_cands = |cands: Vec<Cand>, best: &mut Cand, best_res: &mut Res, runs: &mut usize| -> bool {
+        for batch in cands.chunks(jobs.max(1) * 4) {
+            if *runs >= budget_runs {
+                return false;
+            }
+            let lines: Vec<String> = batch.iter().map(|c| mk(c).line()).collect();
+            let rs = supervise(&lines, jobs);
+            *runs += lines.len();
+            if let Some((i, r)) = rs.into_iter().enumerate().find(|(_, r)| base_key(&r.oracle) == key) {
+                *best = batch[i].clone();
+                *best_res = r;
+                return true;
+            }
+        }
+        false
+    };
+    // ---- whole defines, whole files
+    loop {
+        let mut cands = Vec::new();
+        for i in 0..best.defs.len() {
+            let mut c = best.clone();
+            c.defs.remove(i);
+            cands.push(c);
+        }
+        for i in 0..best.files.len() {
+            let mut c = best.clone();
+            c.files.remove(i);
+            cands.push(c);
+        }
+        if cands.is_empty() || !try_cands(cands, &mut best, &mut best_res, &mut runs) {
+            break;
+        }
+    }
+    // ---- per component: lines, then bytes
     for by_lines in [true, false] {
-        let mut chunk = usize::MAX;
-        loop {
-            let units: Vec<(usize, usize)> = if by_lines {
-                let mut v = Vec::new();
-                let mut s = 0;
-                for (i, b) in best.iter().enumerate() {
-                    if *b == b'\n' {
-                        v.push((s, i + 1));
-                        s = i + 1;
+        for comp in 0..=best.files.len() {
+            let mut chunk = usize::MAX;
+            loop {
+                let cur = best.comp(comp).clone();
+                let units: Vec<(usize, usize)> = if by_lines {
+                    let mut v = Vec::new();
+                    let mut s = 0;
+                    for (i, b) in cur.iter().enumerate() {
+                        if *b == b'\n' {
+                            v.push((s, i + 1));
+                            s = i + 1;
+                        }
                     }
+                    if s < cur.len() {
+                        v.push((s, cur.len()));
+                    }
+                    v
+                } else {
+                    (0..cur.len()).map(|i| (i, i + 1)).collect()
+                };
+                if units.is_empty() || (units.len() <= 1 && by_lines) {
+                    break;
                 }
-                if s < best.len() {
-                    v.push((s, best.len()));
+                if chunk == usize::MAX {
+                    chunk = (units.len() / 2).max(1);
                 }
-                v
-            } else {
-                (0..best.len()).map(|i| (i, i + 1)).collect()
-            };
-            if units.len() <= 1 && by_lines {
-                break;
-            }
-            if chunk == usize::MAX {
-                chunk = (units.len() / 2).max(1);
-            }
-            chunk = chunk.min(units.len().max(1));
-            // candidates: remove units[k*chunk .. (k+1)*chunk]
-            let mut cands: Vec<Vec<u8>> = Vec::new();
-            let mut k = 0;
-            while k < units.len() {
-                let a = units[k].0;
-                let b = units[(k + chunk).min(units.len()) - 1].1;
-                let mut c = best[..a].to_vec();
-                c.extend_from_slice(&best[b..]);
-                if c.len() < best.len() {
-                    cands.push(c);
+                chunk = chunk.min(units.len().max(1));
+                // candidates: remove units[k*chunk .. (k+1)*chunk]
+                let mut cands: Vec<Cand> = Vec::new();
+                let mut k = 0;
+                while k < units.len() {
+                    let a = units[k].0;
+                    let b = units[(k + chunk).min(units.len()) - 1].1;
+                    let mut c = cur[..a].to_vec();
+                    c.extend_from_slice(&cur[b..]);
+                    if c.len() < cur.len() {
+                        cands.push(best.with_comp(comp, c));
+                    }
+                    k += chunk;
                 }
-                k += chunk;
-            }
-            let mut improved = false;
-            for batch in cands.chunks(jobs.max(1) * 4) {
+                let improved = try_cands(cands, &mut best, &mut best_res, &mut runs);
                 if runs >= budget_runs {
                     break;
                 }
-                let lines: Vec<String> = batch.iter().map(|c| mk(c).line()).collect();
-                let rs = supervise(&lines, jobs);
-                runs += lines.len();
-                if let Some((i, r)) = rs.into_iter().enumerate().find(|(_, r)| base_key(&r.oracle) == key) {
-                    best = batch[i].clone();
-                    best_res = r;
-                    improved = true;
-                    break;
+                if !improved {
+                    if chunk == 1 {
+                        break;
+                    }
+                    chunk = (chunk / 2).max(1);
                 }
             }
             if runs >= budget_runs {
                 break;
-            }
-            if !improved {
-                if chunk == 1 {
-                    break;
-                }
-                chunk = (chunk / 2).max(1);
             }
         }
         if runs >= budget_runs {
             break;
         }
     }
+    // ---- define values: empty, then byte by byte
+    for i in 0..best.defs.len() {
+        loop {
+            let v = best.defs[i].1.clone().into_bytes();
+            let mut cands = Vec::new();
+            for k in 0..v.len() {
+                let mut w = v.clone();
+                w.remove(k);
+                if let Ok(t) = String::from_utf8(w) {
+                    let mut c = best.clone();
+                    c.defs[i].1 = t;
+                    cands.push(c);
+                }
+            }
+            if cands.is_empty() || !try_cands(cands, &mut best, &mut best_res, &mut runs) {
+                break;
+            }
+        }
+    }
+    let _ = best.size();
     if short {
         CURRENT_WATCHDOG_MS.store(WATCHDOG_MS, std::sync::atomic::Ordering::SeqCst);
         let confirm = supervise_seq(&[mk(&best).line()]).into_iter().next().unwrap();
@@ -993,7 +1111,18 @@ pub fn run(args: &Args, out: &mut Out) {
 
     if let Some(spec) = args.extra.iter().find_map(|e| e.strip_prefix("dump=")) {
         if let Some(m) = materialise(spec) {
-            std::io::stdout().write_all(&m.bytes).unwrap();
+            let mut o = std::io::stdout();
+            for (n, v) in &m.defs {
+                writeln!(o, "-D {:?}={:?}", n, v).unwrap();
+            }
+            if !m.files.is_empty() {
+                writeln!(o, "==== {}", m.entry).unwrap();
+            }
+            o.write_all(&m.bytes).unwrap();
+            for (n, b) in &m.files {
+                writeln!(o, "==== {}", n).unwrap();
+                o.write_all(b).unwrap();
+            }
         }
         return;
     }
